@@ -79,42 +79,51 @@ Section Sched.
   Lemma sel cd cur done recv : selected mag0 pn0 (mkPbuf cd cur done mag0 pn0 recv).
   Proof. repeat split. exact mag0_nz. Qed.
 
-  Lemma body_run : forall body rows cd q done, cdn cd -> body_ok mag0 pn0 rows body = true ->
-    exists cd', cdn cd' /\
+  Definition body_desig (st : dstate) (body : list (Z * (bool * (N * str)))) : dstate :=
+    fold_left (fun a x => desig_recv mag0 a (snd (snd x))) body st.
+  Definition dead_desig (st : dstate) (dead : list tunit) : dstate :=
+    fold_left (fun a x => desig_idle mag0 a (snd x)) dead st.
+
+  Lemma body_run : forall body rows cd q done st, cdst cd st -> body_ok mag0 pn0 rows body = true ->
+    exists cd', cdst cd' (body_desig st body) /\
     run (mkPbuf cd (Some q) done mag0 pn0 true) (map (fun x => (fst x, snd (snd x))) body)
     = Ok (mkPbuf cd' (Some (add_rows q rows)) done mag0 pn0 true).
   Proof.
-    induction body as [|[t [[|] u]] r IH]; intros rows cd q done Hcd Hok; cbn [body_ok] in Hok.
+    induction body as [|[t [[|] u]] r IH]; intros rows cd q done st Hcd Hok; cbn [body_ok] in Hok.
     - destruct rows; [|discriminate]. exists cd. split; [exact Hcd|]. cbn [map run]. unfold add_rows. cbn [map rev app]. rewrite app_nil_r. destruct q; reflexivity.
     - destruct rows as [|[row sp] rs]; [discriminate|]. apply andb_true_iff in Hok. destruct Hok as [Hrow Hr].
       cbn [map run]. unfold run_unit. cbn [fst snd].
       rewrite (row_step_ours mag0 pn0 row (row_cells sp) u t _ q (sel _ _ _ _) eq_refl eq_refl Hrow). cbn [bind pb_cd pb_done pb_mag pb_page].
-      destruct (IH rs cd (mkTpage (pg_cs q) ((row, row_cells sp) :: pg_data q) (pg_rows q ++ [row]) (pg_start q) (pg_end q)) done Hcd Hr) as (cd' & Hcd' & E). exists cd'. split; [exact Hcd'|]. rewrite E.
+      unfold body_desig. cbn [fold_left snd]. unfold desig_recv at 2. rewrite (row_no_desig _ _ _ _ Hrow). fold (body_desig st r).
+      destruct (IH rs cd (mkTpage (pg_cs q) ((row, row_cells sp) :: pg_data q) (pg_rows q ++ [row]) (pg_start q) (pg_end q)) done st Hcd Hr) as (cd' & Hcd' & E). exists cd'. split; [exact Hcd'|]. rewrite E.
       unfold add_rows. cbn [pg_cs pg_data pg_rows pg_start pg_end map rev row_data fst snd].
       rewrite <- !app_assoc. reflexivity.
     - apply andb_true_iff in Hok. destruct Hok as [Hb Hr]. cbn [map run]. unfold run_unit. cbn [fst snd].
-      apply orb_true_iff in Hb. destruct Hb as [Hb|Hb].
-      + rewrite (benign_step mag0 pn0 u t _ (sel _ _ _ _) Hb). cbn [bind]. apply IH; assumption.
-      + destruct (neutral_step mag0 pn0 u t cd (Some q) done true mag0_nz Hcd Hb) as (cd1 & Hcd1 & E1). rewrite E1. cbn [bind].
+      unfold body_desig. cbn [fold_left snd].
+      destruct (desig_ok mag0 u) eqn:Ed.
+      + destruct (desig_step mag0 pn0 u t cd (Some q) done true st mag0_nz Hcd Ed) as (cd1 & Hcd1 & E1). rewrite E1. cbn [bind].
         apply IH; assumption.
+      + rewrite orb_false_r in Hb. rewrite (benign_step mag0 pn0 u t _ (sel _ _ _ _) Hb). cbn [bind].
+        unfold desig_recv at 2. rewrite Ed. apply IH; assumption.
   Qed.
 
-  Lemma dead_run : forall dead cd cur done, cdn cd ->
-    forallb (fun x : tunit => dead_ok mag0 pn0 (snd x) || neutral_unit mag0 (snd x)) dead = true ->
-    exists cd', cdn cd' /\ run (mkPbuf cd cur done mag0 pn0 false) dead = Ok (mkPbuf cd' cur done mag0 pn0 false).
+  Lemma dead_run : forall dead cd cur done st, cdst cd st ->
+    forallb (fun x : tunit => dead_ok mag0 pn0 (snd x) || desig_ok mag0 (snd x)) dead = true ->
+    exists cd', cdst cd' (dead_desig st dead) /\ run (mkPbuf cd cur done mag0 pn0 false) dead = Ok (mkPbuf cd' cur done mag0 pn0 false).
   Proof.
-    induction dead as [|[t u] r IH]; intros cd cur done Hcd H; cbn [run]; [exists cd; split; [exact Hcd | reflexivity]|].
+    induction dead as [|[t u] r IH]; intros cd cur done st Hcd H; cbn [run]; [exists cd; split; [exact Hcd | reflexivity]|].
     cbn [forallb snd] in H. apply andb_true_iff in H. destruct H as [Hu Hr]. unfold run_unit. cbn [fst snd].
-    apply orb_true_iff in Hu. destruct Hu as [Hu|Hu].
-    - rewrite (dead_step mag0 pn0 u t _ (sel _ _ _ _) eq_refl Hu). cbn [bind]. apply IH; assumption.
-    - destruct (neutral_step mag0 pn0 u t cd cur done false mag0_nz Hcd Hu) as (cd1 & Hcd1 & E1). rewrite E1. cbn [bind]. apply IH; assumption.
+    unfold dead_desig. cbn [fold_left snd].
+    destruct (dead_ok mag0 pn0 u) eqn:Ek.
+    - rewrite (dead_step mag0 pn0 u t _ (sel _ _ _ _) eq_refl Ek). cbn [bind]. rewrite (dead_desig_idle mag0 pn0 st u Ek). apply IH; assumption.
+    - cbn [orb] in Hu. destruct (desig_step mag0 pn0 u t cd cur done false st mag0_nz Hcd Hu) as (cd1 & Hcd1 & E1). rewrite E1. cbn [bind]. apply IH; assumption.
   Qed.
 
   Definition tail_events (m : imux) : list tunit := match im_tail m with Some (tm, dead) => tm :: dead | None => [] end.
 
   (* what follows the header of an instance *)
-  Lemma after_header_run i m cd done : cdn cd -> inst_mux_ok mag0 pn0 (i, m) = true ->
-    exists recv' cd', cdn cd' /\
+  Lemma after_header_run i m cd done st : cdst cd st -> inst_mux_ok mag0 pn0 (i, m) = true ->
+    exists recv' cd', cdst cd' (desig_inst mag0 st m) /\
                   run (mkPbuf cd (Some (new_page (i_cs i) (i_t i))) done mag0 pn0 true)
                       (map (fun x => (fst x, snd (snd x))) (im_body m) ++ tail_events m)
                   = Ok (mkPbuf cd' (Some (page_of i)) done mag0 pn0 recv').
@@ -122,25 +131,25 @@ Section Sched.
     intros Hcd Hok. unfold inst_mux_ok in Hok. repeat (apply andb_true_iff in Hok; destruct Hok as [Hok ?]).
     match goal with H : body_ok _ _ _ _ = true |- _ => rename H into Hbody end.
     match goal with H : match im_tail m with _ => _ end = true |- _ => rename H into Htail end.
-    rewrite run_app. destruct (body_run _ _ cd (new_page (i_cs i) (i_t i)) done Hcd Hbody) as (cd1 & Hcd1 & E1).
+    rewrite run_app. destruct (body_run _ _ cd (new_page (i_cs i) (i_t i)) done st Hcd Hbody) as (cd1 & Hcd1 & E1).
     rewrite E1. cbn [bind]. fold (page_of i).
-    unfold tail_events. destruct (im_tail m) as [[[tt tu] dead]|].
+    unfold tail_events, desig_inst. fold (body_desig st (im_body m)). destruct (im_tail m) as [[[tt tu] dead]|].
     - apply andb_true_iff in Htail. destruct Htail as [Ht Hd]. cbn [snd] in Ht. cbn [run]. unfold run_unit. cbn [fst snd].
       rewrite (term_step mag0 pn0 tu tt _ (sel _ _ _ _) eq_refl Ht). cbn [bind pb_cd pb_cur pb_done pb_mag pb_page].
-      destruct (dead_run dead cd1 (Some (page_of i)) done Hcd1 Hd) as (cd2 & Hcd2 & E2).
+      destruct (dead_run dead cd1 (Some (page_of i)) done _ Hcd1 Hd) as (cd2 & Hcd2 & E2).
       exists false, cd2. split; [exact Hcd2 | exact E2].
     - exists true, cd1. split; [exact Hcd1 | reflexivity].
   Qed.
 
-  Lemma inst_run i m cd cur done recv : cdn cd -> inst_mux_ok mag0 pn0 (i, m) = true ->
-    exists recv' cd', cdn cd' /\
+  Lemma inst_run i m cd cur done recv st : cdst cd st -> inst_mux_ok mag0 pn0 (i, m) = true ->
+    exists recv' cd', cdst cd' (desig_inst mag0 st m) /\
                   run (mkPbuf cd cur done mag0 pn0 recv) (inst_events (i, m))
                   = Ok (mkPbuf cd' (Some (page_of i)) (done ++ close cur (i_t i)) mag0 pn0 recv').
   Proof.
     intros Hcd Hok. pose proof Hok as Hok'. unfold inst_mux_ok in Hok'. repeat (apply andb_true_iff in Hok'; destruct Hok' as [Hok' ?]).
     unfold inst_events. cbn [run]. unfold run_unit. cbn [fst snd].
     rewrite (header_step mag0 pn0 (i_cs i) (im_hdr m) (i_t i) _ (sel _ _ _ _) Hok'). cbn [bind pb_cd pb_cur pb_done pb_mag pb_page].
-    destruct (after_header_run i m cd (done ++ close cur (i_t i)) Hcd Hok) as (recv' & cd' & Hcd' & E).
+    destruct (after_header_run i m cd (done ++ close cur (i_t i)) st Hcd Hok) as (recv' & cd' & Hcd' & E).
     exists recv', cd'. split; [exact Hcd'|]. unfold tail_events in E. rewrite <- E. f_equal. f_equal. destruct cur; cbn [close]; [reflexivity | rewrite app_nil_r; reflexivity].
   Qed.
 
@@ -149,16 +158,16 @@ Section Sched.
   Fixpoint final_cur (cur : option tpage) (l : list inst) : option tpage :=
     match l with [] => cur | i :: r => final_cur (Some (page_of i)) r end.
 
-  Lemma insts_run : forall ims cd cur done recv, cdn cd -> forallb (inst_mux_ok mag0 pn0) ims = true ->
-    exists recv' cd', cdn cd' /\
+  Lemma insts_run : forall ims cd cur done recv st, cdst cd st -> forallb (inst_mux_ok mag0 pn0) ims = true ->
+    exists recv' cd', cdst cd' (fold_left (desig_inst mag0) (map snd ims) st) /\
                   run (mkPbuf cd cur done mag0 pn0 recv) (flat_map inst_events ims)
                   = Ok (mkPbuf cd' (final_cur cur (map fst ims)) (done ++ closed cur (map fst ims)) mag0 pn0 recv').
   Proof.
-    induction ims as [|[i m] r IH]; intros cd cur done recv Hcd H.
+    induction ims as [|[i m] r IH]; intros cd cur done recv st Hcd H.
     - exists recv, cd. split; [exact Hcd|]. cbn. rewrite app_nil_r. reflexivity.
     - cbn [forallb] in H. apply andb_true_iff in H. destruct H as [Hi Hr].
-      cbn [flat_map]. rewrite run_app. destruct (inst_run i m cd cur done recv Hcd Hi) as (r1 & cd1 & Hcd1 & E1). rewrite E1. cbn [bind].
-      destruct (IH cd1 (Some (page_of i)) (done ++ close cur (i_t i)) r1 Hcd1 Hr) as (r2 & cd2 & Hcd2 & E2). exists r2, cd2. split; [exact Hcd2|]. rewrite E2.
+      cbn [flat_map]. rewrite run_app. destruct (inst_run i m cd cur done recv st Hcd Hi) as (r1 & cd1 & Hcd1 & E1). rewrite E1. cbn [bind].
+      destruct (IH cd1 (Some (page_of i)) (done ++ close cur (i_t i)) r1 _ Hcd1 Hr) as (r2 & cd2 & Hcd2 & E2). exists r2, cd2. split; [exact Hcd2|]. rewrite E2.
       cbn [map fst final_cur closed]. rewrite <- app_assoc. reflexivity.
   Qed.
 End Sched.
@@ -175,32 +184,32 @@ Proof.
 Qed.
 
 (* ---- the pages of a schedule are parsed into its cues ---- *)
-Definition cdinv (d : cdec) : Prop :=
-  tkey0 (cd_x28 d) /\ tkey0 (cd_m29 d) /\ length (cd_c d) = 96%nat
-  /\ match cd_last d with Some l => cd_c d = g0_table l | None => True end.
+Definition cd_triplet (d : cdec) : N :=
+  match cd_x28 d with Some t => t | None => match cd_m29 d with Some t => t | None => 0 end end.
+Definition cdinv (tr : N) (d : cdec) : Prop :=
+  cd_triplet d = tr /\ length (cd_c d) = 96%nat
+  /\ match cd_last d with Some l => cd_c d = g_table tr l | None => True end.
 
-Lemma g0_table_ok cs : charset_for 0 cs = Ok (g0_table cs) /\ length (g0_table cs) = 96%nat.
-Proof. unfold g0_table. destruct (charset_for_total 0 cs) as (c & E & L). rewrite E. split; [reflexivity | exact L]. Qed.
+Lemma g_table_ok tr cs : charset_for tr cs = Ok (g_table tr cs) /\ length (g_table tr cs) = 96%nat.
+Proof. unfold g_table. destruct (charset_for_total tr cs) as (c & E & L). rewrite E. split; [reflexivity | exact L]. Qed.
 
-Lemma charset_for_key0 t cs : triplet_key t = 0 -> charset_for t cs = charset_for 0 cs.
-Proof. intros H. unfold charset_for. unfold triplet_key in H. rewrite H. reflexivity. Qed.
-
-Lemma cdn_cdinv d : cdn d -> cdinv d.
-Proof. intros (Hl & Hx & Hm & Hc). repeat split; try assumption. - rewrite Hc. reflexivity. - rewrite Hl. exact I. Qed.
-
-Lemma update_charset_inv d cs : cdinv d ->
-  exists d', update_charset d (Some cs) false = Ok d' /\ cdinv d' /\ cd_c d' = g0_table cs.
+Lemma cdst_cdinv d st : cdst d st -> cdinv (dstate_triplet st) d.
 Proof.
-  intros (Hx & Hm & Hl & Hc). unfold update_charset. cbn [negb andb]. rewrite andb_true_r.
-  assert (Hk : triplet_key (match cd_x28 d with Some t => t | None => match cd_m29 d with Some t => t | None => 0 end end) = 0).
-  { destruct (cd_x28 d); [exact Hx|]. destruct (cd_m29 d); [exact Hm | reflexivity]. }
+  intros (Hl & Hx & Hm & Hc). split; [unfold cd_triplet, dstate_triplet; rewrite Hx, Hm; reflexivity|].
+  split; [rewrite Hc; reflexivity | rewrite Hl; exact I].
+Qed.
+
+Lemma update_charset_inv tr d cs : cdinv tr d ->
+  exists d', update_charset d (Some cs) false = Ok d' /\ cdinv tr d' /\ cd_c d' = g_table tr cs.
+Proof.
+  intros (Ht & Hl & Hc). unfold update_charset. cbn [negb andb]. rewrite andb_true_r.
   assert (Hnew : exists d', (do c <- charset_for (match cd_x28 d with Some t => t | None => match cd_m29 d with Some t => t | None => 0 end end) cs;
-                            Ok (mkCdec c (Some cs) (cd_m29 d) (cd_x28 d))) = Ok d' /\ cdinv d' /\ cd_c d' = g0_table cs).
-  { rewrite (charset_for_key0 _ cs Hk). destruct (g0_table_ok cs) as [E Len]. rewrite E. cbn [bind]. eexists. split; [reflexivity|].
-    split; [|reflexivity]. repeat split; cbn [cd_x28 cd_m29 cd_c cd_last]; try assumption; try reflexivity. }
+                            Ok (mkCdec c (Some cs) (cd_m29 d) (cd_x28 d))) = Ok d' /\ cdinv tr d' /\ cd_c d' = g_table tr cs).
+  { fold (cd_triplet d). rewrite Ht. destruct (g_table_ok tr cs) as [E Len]. rewrite E. cbn [bind]. eexists. split; [reflexivity|].
+    split; [|reflexivity]. split; [exact Ht|]. split; [exact Len | reflexivity]. }
   destruct (cd_last d) as [l|] eqn:L.
   - destruct (N.eqb_spec cs l) as [->|Hne]; [|exact Hnew].
-    exists d. split; [reflexivity|]. split; [|exact Hc]. repeat split; try assumption; try (rewrite L; exact Hc).
+    exists d. split; [reflexivity|]. split; [|exact Hc]. split; [exact Ht|]. split; [exact Hl | rewrite L; exact Hc].
   - exact Hnew.
 Qed.
 
@@ -271,15 +280,15 @@ Definition inst_ok (i : inst) : bool :=
 Lemma nsort_in k l : In k (nsort l) -> In k l.
 Proof. intros H. eapply Permutation_in; [apply Permutation_sym, nsort_perm | exact H]. Qed.
 
-Lemma page_parse_inst d first i en : cdinv d -> inst_ok i = true ->
+Lemma page_parse_inst tr d first i en : cdinv tr d -> inst_ok i = true ->
   exists d', page_parse d first (page_with_end (page_of i) en) = Ok (d',
                match i_rows i with [] => None
-               | _ => Some (mkTcue (i_t i - first) (en - first) (inst_lines (g0_table (i_cs i)) (i_rows i))) end)
-             /\ cdinv d'.
+               | _ => Some (mkTcue (i_t i - first) (en - first) (inst_lines (g_table tr (i_cs i)) (i_rows i))) end)
+             /\ cdinv tr d'.
 Proof.
   intros Hd Hok. unfold inst_ok in Hok. apply andb_true_iff in Hok. destruct Hok as [Hnd Hrows].
   unfold page_parse. cbn [page_with_end page_of add_rows new_page pg_cs pg_data pg_rows pg_start pg_end].
-  destruct (update_charset_inv d (i_cs i) Hd) as (d' & E & Hd' & Hc). rewrite E. cbn [bind].
+  destruct (update_charset_inv tr d (i_cs i) Hd) as (d' & E & Hd' & Hc). rewrite E. cbn [bind].
   destruct (i_rows i) as [|r0 rs] eqn:R.
   - cbn. exists d'. split; [reflexivity | exact Hd'].
   - rewrite <- R in *. 
@@ -287,19 +296,19 @@ Proof.
     { rewrite R. cbn [map rev]. intros H. apply app_eq_nil in H. destruct H as [H _]. apply app_eq_nil in H. destruct H as [_ H]. discriminate. }
     destruct (rev (map row_data (i_rows i)) ++ []) as [|x xs] eqn:D; [contradiction|]. rewrite <- D.
     rewrite Hc. cbn [app]. 
-    destruct (g0_table_ok (i_cs i)) as [_ Len].
-    rewrite (parse_rows_lines (g0_table (i_cs i)) Len (i_rows i) Hrows Hnd (nsort (map fst (i_rows i)))
+    destruct (g_table_ok tr (i_cs i)) as [_ Len].
+    rewrite (parse_rows_lines (g_table tr (i_cs i)) Len (i_rows i) Hrows Hnd (nsort (map fst (i_rows i)))
                ltac:(intros k Hk; apply nsort_in in Hk; exact Hk)).
     cbn [bind app]. exists d'. split; [|exact Hd']. reflexivity.
 Qed.
 
-Lemma parse_pages_sched first last : forall l d, cdinv d -> forallb inst_ok l = true ->
-  parse_pages d first (pages_from l last) = Ok (cues_from first last l).
+Lemma parse_pages_sched tr first last : forall l d, cdinv tr d -> forallb inst_ok l = true ->
+  parse_pages d first (pages_from l last) = Ok (cues_from tr first last l).
 Proof.
   induction l as [|i r IH]; intros d Hd Hok; [reflexivity|].
   cbn [forallb] in Hok. apply andb_true_iff in Hok. destruct Hok as [Hi Hr].
   cbn [pages_from parse_pages cues_from].
-  destruct (page_parse_inst d first i (nxt r last) Hd Hi) as (d' & E & Hd'). rewrite E. cbn [bind fst snd].
+  destruct (page_parse_inst tr d first i (nxt r last) Hd Hi) as (d' & E & Hd'). rewrite E. cbn [bind fst snd].
   rewrite (IH d' Hd' Hr). cbn [bind]. unfold nxt. destruct (i_rows i); reflexivity.
 Qed.
 
@@ -324,8 +333,11 @@ Proof.
   destruct Hq as [Hq Hr]. rewrite Hq, Hr. rewrite Z.mod_small by lia. rewrite N2Z.id. reflexivity.
 Qed.
 
-Lemma cdn0 : cdn cdec0.
+Lemma cdst0 : cdst cdec0 (None, None).
 Proof. repeat split. Qed.
+
+Lemma map_snd_combine {A B} (a : list A) : forall (b : list B), length a = length b -> map snd (combine a b) = b.
+Proof. induction a as [|x r IH]; intros [|y s] H; cbn in *; try reflexivity; try discriminate. f_equal. apply IH. lia. Qed.
 
 (* the end of ttx_feed, from the state of the run *)
 Lemma finish cd mag0 pn0 recv f' cur done :
@@ -338,7 +350,7 @@ Qed.
 Theorem stream_given_page : forall (s : sched) (m : mux) (peses : list pes),
   mux_ok s m = true -> forallb pes_ok peses = true -> flat_map pes_units peses = events s m ->
   ttx_feed (Z.of_N (s_mag s) * 100 + s_pn s) (map enc_pes peses)
-  = Ok (cues_of s (zero_or (tmin peses None)) (zero_or (tmax peses None))).
+  = Ok (cues_of s (zero_or (tmin peses None)) (zero_or (tmax peses None)) (desig_final false (s_mag s) m)).
 Proof.
   intros s m peses Hok Hpes Hflat. unfold mux_ok in Hok. repeat (apply andb_true_iff in Hok; destruct Hok as [Hok ?]).
   match goal with H : forallb (inst_mux_ok _ _) _ = true |- _ => rename H into Hinsts end.
@@ -349,9 +361,9 @@ Proof.
   assert (Hnz : s_mag s <> 0) by lia.
   unfold ttx_feed. rewrite new_pbuf_page by lia.
   (* the run over the events *)
-  destruct (dead_run (s_mag s) (s_pn s) Hnz (mx_pre m) cdec0 None [] cdn0 Hpre) as (cd0 & Hcd0 & Epre).
-  destruct (insts_run (s_mag s) (s_pn s) Hnz (combine (s_insts s) (mx_insts m)) cd0 None [] false Hcd0 Hinsts) as (recv' & cd1 & Hcd1 & Erun).
-  rewrite (map_fst_combine _ _ Hlen) in Erun.
+  destruct (dead_run (s_mag s) (s_pn s) Hnz (mx_pre m) cdec0 None [] _ cdst0 Hpre) as (cd0 & Hcd0 & Epre).
+  destruct (insts_run (s_mag s) (s_pn s) Hnz (combine (s_insts s) (mx_insts m)) cd0 None [] false _ Hcd0 Hinsts) as (recv' & cd1 & Hcd1 & Erun).
+  rewrite (map_fst_combine _ _ Hlen) in Erun. rewrite (map_snd_combine _ _ Hlen) in Hcd1.
   assert (Hrun : run (add_done [] (mkPbuf cdec0 None [] (s_mag s) (s_pn s) false)) (flat_map pes_units peses)
                  = Ok (mkPbuf cd1 (final_cur None (s_insts s)) ([] ++ closed None (s_insts s)) (s_mag s) (s_pn s) recv')).
   { rewrite Hflat. unfold events. rewrite run_app. unfold add_done. cbn [pb_cd pb_cur pb_done pb_mag pb_page pb_recv app].
@@ -364,7 +376,7 @@ Proof.
   replace (match pb_cur (f_buf f') with Some p => [page_with_end p (zero_or (f_last f'))] | None => [] end)
     with (close (pb_cur (f_buf f')) (zero_or (f_last f'))) by reflexivity.
   rewrite Hpages, Hcd. cbn [app]. rewrite pages_eq. cbn [close app]. rewrite Hfirst, Hlast.
-  unfold cues_of. apply parse_pages_sched; [exact (cdn_cdinv _ Hcd1)|].
+  unfold cues_of. apply parse_pages_sched; [exact (cdst_cdinv _ _ Hcd1)|].
   rewrite <- (map_fst_combine (s_insts s) (mx_insts m) Hlen). apply (inst_mux_inst_ok _ _ _ Hinsts).
 Qed.
 
@@ -381,7 +393,8 @@ Qed.
 
 Theorem stream_auto_page : forall (s : sched) (m : mux) (peses : list pes),
   mux_ok_auto s m = true -> forallb pes_ok peses = true -> flat_map pes_units peses = events s m ->
-  ttx_feed 0 (map enc_pes peses) = Ok (cues_of s (zero_or (tmin peses None)) (zero_or (tmax peses None))).
+  ttx_feed 0 (map enc_pes peses)
+  = Ok (cues_of s (zero_or (tmin peses None)) (zero_or (tmax peses None)) (desig_final true (s_mag s) m)).
 Proof.
   intros s m peses Hok Hpes Hflat. unfold mux_ok_auto in Hok. repeat (apply andb_true_iff in Hok; destruct Hok as [Hok ?]).
   match goal with H : forallb (inst_mux_ok _ _) _ = true |- _ => rename H into Hinsts end.
@@ -394,13 +407,13 @@ Proof.
   unfold ttx_feed. change (new_pbuf 0) with (mkPbuf cdec0 None [] 0 0%Z false).
   set (b0 := mkPbuf cdec0 None [] 0 0%Z false).
   assert (Hun : unselected b0) by (repeat split).
-  assert (Hrun : exists recv' cd1, cdn cd1 /\ run (add_done [] b0) (flat_map pes_units peses)
+  assert (Hrun : exists recv' cd1, cdst cd1 (fold_left (desig_inst (s_mag s)) (mx_insts m) (None, None)) /\ run (add_done [] b0) (flat_map pes_units peses)
                  = Ok (mkPbuf cd1 (final_cur None (s_insts s)) ([] ++ closed None (s_insts s))
                               (match s_insts s with [] => 0 | _ => s_mag s end) (match s_insts s with [] => 0%Z | _ => s_pn s end) recv')).
   { rewrite Hflat. unfold events. rewrite run_app. change (add_done [] b0) with b0.
     rewrite (unselected_run _ b0 Hun Hpre). cbn [bind].
     destruct (s_insts s) as [|i r] eqn:Si; destruct (mx_insts m) as [|im ims] eqn:Mi; cbn [length] in Hlen; try discriminate.
-    - exists false, cdec0. split; [exact cdn0 | reflexivity].
+    - exists false, cdec0. split; [exact cdst0 | reflexivity].
     - cbn [combine flat_map forallb] in *. apply andb_true_iff in Hinsts. destruct Hinsts as [Hi Hr].
       pose proof Hi as Hi'. unfold inst_mux_ok in Hi'. repeat (apply andb_true_iff in Hi'; destruct Hi' as [Hi' ?]).
       pose proof Hi' as Hh. unfold is_our_header in Hh.
@@ -410,8 +423,9 @@ Proof.
       destruct (hdr_c6 p) as [[|]|] eqn:C6; try discriminate.
       rewrite run_app. rewrite inst_events_eq. cbn [run]. unfold run_unit. cbn [fst snd].
       rewrite (select_step (s_mag s) (s_pn s) (i_cs i) (im_hdr im) (i_t i) b0 p Hun eq_refl Hi' A C6). cbn [bind pb_cd pb_done].
-      destruct (after_header_run (s_mag s) (s_pn s) Hnz i im cdec0 [] cdn0 Hi) as (r1 & c1 & Hc1 & E1).
-      destruct (insts_run (s_mag s) (s_pn s) Hnz (combine r ims) c1 (Some (page_of i)) [] r1 Hc1 Hr) as (r2 & c2 & Hc2 & E2).
+      destruct (after_header_run (s_mag s) (s_pn s) Hnz i im cdec0 [] _ cdst0 Hi) as (r1 & c1 & Hc1 & E1).
+      destruct (insts_run (s_mag s) (s_pn s) Hnz (combine r ims) c1 (Some (page_of i)) [] r1 _ Hc1 Hr) as (r2 & c2 & Hc2 & E2).
+      rewrite (map_snd_combine r ims ltac:(lia)) in Hc2.
       subst b0. cbn [pb_cd pb_done]. exists r2, c2. split; [exact Hc2|]. rewrite E1. cbn [bind].
       rewrite E2. rewrite (map_fst_combine r ims ltac:(lia)). reflexivity. }
   destruct Hrun as (recv' & cd1 & Hcd1 & Hrun).
@@ -422,6 +436,6 @@ Proof.
   replace (match pb_cur (f_buf f') with Some p => [page_with_end p (zero_or (f_last f'))] | None => [] end)
     with (close (pb_cur (f_buf f')) (zero_or (f_last f'))) by reflexivity.
   rewrite Hpages, Hcd. cbn [app]. rewrite pages_eq. cbn [close app]. rewrite Hf, Hl.
-  unfold cues_of. apply parse_pages_sched; [exact (cdn_cdinv _ Hcd1)|].
+  unfold cues_of. apply parse_pages_sched; [exact (cdst_cdinv _ _ Hcd1)|].
   rewrite <- (map_fst_combine (s_insts s) (mx_insts m) Hlen). apply (inst_mux_inst_ok _ _ _ Hinsts).
 Qed.
